@@ -49,6 +49,30 @@ pub fn histories(n_sources: usize, n_ticks: usize, max_items: usize) -> Vec<Hist
         .collect()
 }
 
+/// Canonical enumeration order used by the engines: fewer items first, then items in earlier
+/// `(tick, source)` slots first, then by item value. Independent of the number of ticks, so the
+/// first failing history of a program (and hence the violation key) is the same in every tier.
+pub fn order_key(h: &Hist) -> (usize, Vec<(usize, usize, Item)>) {
+    let mut v = vec![];
+    for (t, per) in h.iter().enumerate() {
+        for (s, items) in per.iter().enumerate() {
+            for it in items {
+                v.push((t, s, *it));
+            }
+        }
+    }
+    (v.len(), v)
+}
+
+/// [`show`] without trailing empty ticks (tier-independent text for violation keys).
+pub fn show_trimmed(h: &Hist) -> String {
+    let mut n = h.len();
+    while n > 0 && h[n - 1].iter().all(|s| s.is_empty()) {
+        n -= 1;
+    }
+    show(&h[..n].to_vec())
+}
+
 pub fn total_items(h: &Hist) -> usize {
     h.iter().map(|t| t.iter().map(|s| s.len()).sum::<usize>()).sum()
 }
